@@ -19,6 +19,7 @@ EXPLANATION = (
     "overrides createCycle (does not inherit the benign default) and NegativeCycle is a GroundingError; N8 no handler on the engine path swallows "
     "the error (a handler that can catch NegativeCycle must re-raise). That every semantically negative loop reaches one of these sites, and that "
     "no stratified program does, is a semantic statement about the engine and is not decided."
+    " Added after seed round 6: N4 also requires that the list handed to notify_cycle is the complete, never re-bound result of engine.find_cycle."
 )
 TECHNIQUE = "static analysis: CFG must-pass-through rules over the cycle-detection call chain"
 LEVEL_TEXT = EXPLANATION
